@@ -1,0 +1,15 @@
+//go:build verif
+
+package storage
+
+// VerifFileSystemFactory lets a simulator supply the FileSystem for a storage
+// location (verification builds only). Nil means shipped behaviour.
+var VerifFileSystemFactory func(location string) FileSystem
+
+func verifFileSystem(location string) (FileSystem, bool) {
+	if VerifFileSystemFactory == nil {
+		return nil, false
+	}
+	fs := VerifFileSystemFactory(location)
+	return fs, fs != nil
+}
